@@ -129,6 +129,10 @@ class CallMixin:
             return self.phi(c, v1, v2, site)
         if op == "Func":
             fi = fn.attr
+            if pos and fn.extra and any(d.split("(")[0].split(".")[-1] == "singledispatch"
+                                        for d in fn.extra.get("ext_decorators", [])) and \
+                    not any(f is fi for (_s, f) in fr.chain[-2:]):
+                return self._single_dispatch(fn, pos, kw, st, fr, site)
             env = self._class_env.get(id(fi.cls), {}) if fi.cls is not None else {}
             return self.call_repo(fi, env, None, pos, kw, st, fr, site)
         if op == "Closure":
@@ -486,6 +490,88 @@ class CallMixin:
             elif pos or kw:
                 obj.extra["ctor_args"] = (tuple(pos), dict(kw))
         return obj
+
+    def _dispatch_impls(self, fi):
+        """[(type expression AST, FuncInfo)] registered on the functools.singledispatch function fi, in source order:
+        module-level  @<name>.register(T) def ...  /  @<name>.register def ...(x: T, ...)"""
+        cache = self.__dict__.setdefault("_sd_cache", {})
+        if id(fi) in cache:
+            return cache[id(fi)]
+        out = []
+        for st_ in fi.module.tree.body:
+            if not isinstance(st_, (ast.FunctionDef, ast.AsyncFunctionDef)):
+                continue
+            for d in st_.decorator_list:
+                tgt = d.func if isinstance(d, ast.Call) else d
+                if isinstance(tgt, ast.Attribute) and tgt.attr == "register" and isinstance(tgt.value, ast.Name) and \
+                        tgt.value.id == fi.name:
+                    texpr = None
+                    if isinstance(d, ast.Call) and d.args:
+                        texpr = d.args[0]
+                    else:
+                        a = st_.args.posonlyargs + st_.args.args
+                        if a and a[0].annotation is not None:
+                            texpr = a[0].annotation
+                    if texpr is not None:
+                        impl = FuncInfo(st_, fi.module, f"{fi.qualname}.register[{ast.unparse(texpr)}]", cls=None,
+                                        parent=None)
+                        out.append((texpr, impl))
+        cache[id(fi)] = out
+        return out
+
+    def _single_dispatch(self, fn, pos, kw, st, fr, site):
+        """functools.singledispatch: the implementation registered for the type of the first argument, else the
+        generic function (registered types are taken as mutually exclusive, as union variants are)"""
+        fi = fn.attr
+        impls = self._dispatch_impls(fi)
+        arg0 = self.res(pos[0], st)
+
+        def types_of(texpr):
+            parts = []
+
+            def rec(e):
+                if isinstance(e, ast.BinOp) and isinstance(e.op, ast.BitOr):
+                    rec(e.left)
+                    rec(e.right)
+                elif isinstance(e, ast.Subscript) and ast.unparse(e.value).split(".")[-1] == "Union":
+                    for x in (e.slice.elts if isinstance(e.slice, ast.Tuple) else [e.slice]):
+                        rec(x)
+                else:
+                    parts.append(self.eval_in_module(fi.module, e))
+            rec(texpr)
+            return parts[0] if len(parts) == 1 else self.mk("Tuple", tuple(parts), None, site)
+
+        def run(k, st_):
+            if k >= len(impls):
+                return self.call_repo(fi, {}, None, pos, kw, st_, fr, site)
+            texpr, impl = impls[k]
+            cn = self.call_ext(self.mk("Ext", (), "builtins.isinstance", site), [arg0, types_of(texpr)], {}, st_, fr, site)
+            t = self.truth(cn)
+            if t is True:
+                return self.call_repo(impl, {}, None, pos, kw, st_, fr, site)
+            if t is False:
+                return run(k + 1, st_)
+            base_pc = st_.pc
+            s1, s2 = st_.copy(), st_.copy()
+            s1.pc = base_pc + ((cn, True),)
+            s2.pc = base_pc + ((cn, False),)
+            v1 = v2 = None
+            try:
+                v1 = self.call_repo(impl, {}, None, pos, kw, s1, fr, site)
+            except PathEnd:
+                pass
+            try:
+                v2 = run(k + 1, s2)
+            except PathEnd:
+                pass
+            if v1 is None and v2 is None:
+                raise PathEnd()
+            if v1 is None or v2 is None:
+                st_.assign_from(s2 if v1 is None else s1)
+                return v2 if v1 is None else v1
+            st_.assign_from(self.merge2(cn, s1, s2, base_pc))
+            return self.phi(cn, v1, v2, site)
+        return run(0, st)
 
     def _phi_kwargs(self, n, depth=0):
         if n.op == "Dict":
